@@ -43,7 +43,7 @@ def write_module(src_dir, prog, order):
     pk = os.path.join(src_dir, "vzpkg")
     os.makedirs(pk, exist_ok=True)
     with open(os.path.join(pk, "__init__.py"), "w") as f:
-        f.write("")
+        f.write(vprogs.init_source(prog))
     with open(os.path.join(pk, "mod.py"), "w") as f:
         f.write(vprogs.module_source(prog, order=order))
 
@@ -106,10 +106,15 @@ def run_job(job):
                             src += "\nalias_%s = %s\n" % (n["name"], n["name"])
                         if "wrapped" in forms:
                             src += "\nwrapped_%s = _deco(%s)\n" % (n["name"], n["name"])
+                        if "wrapped2" in forms:
+                            src += "\nwrapped2_%s = _deco(_deco(%s))\n" % (n["name"], n["name"])
                         for a in prog.get("aliases", []):
                             if a[1] == n["name"]:
                                 src += "\n%s = %s\n" % (a[0], a[1])
-                        seg["ops"].append({"op": "exec_def", "name": n["name"], "src": src})
+                        op_ = {"op": "exec_def", "name": n["name"], "src": src}
+                        if n.get("where") == "init":
+                            op_["module"] = vprogs.PKG
+                        seg["ops"].append(op_)
                 elif how == "setvar":
                     seg["ops"].append({"op": "setvar", "name": n["name"], "val": n["val"]})
                 elif how == "mutate":
@@ -117,7 +122,7 @@ def run_job(job):
                 elif how == "delname":
                     seg["ops"].append({"op": "delname", "name": st["name"]})
                 elif how == "reload":
-                    seg["ops"].append({"op": "reload", "text": vprogs.module_source(prog)})
+                    seg["ops"].append({"op": "reload", "text": vprogs.module_source(prog), "init_text": vprogs.init_source(prog)})
                 seg["meta"].append({"step": st})
             elif do == "alias":
                 prog.setdefault("aliases", [])
@@ -127,6 +132,7 @@ def run_job(job):
                     seg["meta"].append({"step": st})
             elif do == "call":
                 seg["ops"].append({"op": "call", "name": st["name"], "how": st.get("how", "plain"),
+                                   "arg": st.get("arg", 1), "fnarg": st.get("fnarg"),
                                    "twin_text": vprogs.module_source(prog, twin=True)})
                 seg["meta"].append({"step": st})
             elif do == "query":
@@ -134,7 +140,7 @@ def run_job(job):
                 seg["meta"].append({"step": st})
                 if st.get("truth"):
                     seg["ops"].append({"op": "truth", "name": st["name"], "how": "plain",
-                                       "text": vprogs.module_source(prog)})
+                                       "text": vprogs.module_source(prog), "init_text": vprogs.init_source(prog)})
                     seg["meta"].append({"step": st})
             elif do == "probe":
                 seg["ops"].append({"op": "probe", "name": st["name"]})
